@@ -107,7 +107,8 @@ Section TxSeq.
 
   (* input x is input s (same kind, keys, threshold, digest computable) possibly with other signatures / flag *)
   Definition same_shape (s x : @sinput B) : Prop :=
-    si_segwit x = si_segwit s /\ si_keys x = si_keys s /\ si_m x = si_m s /\ si_hash_ok x = si_hash_ok s.
+    si_segwit x = si_segwit s /\ si_keys x = si_keys s /\ si_m x = si_m s /\ si_hash_ok x = si_hash_ok s /\
+    si_ht x = si_ht s.
 
   (* the inputs from position i on carry exactly the own signatures of the listed keys in accs, in key order *)
   Inductive tx_signed_by : nat -> list (@sinput B) -> list (list Z) -> list (@sinput B) -> Prop :=
